@@ -4,7 +4,7 @@
 use crate::choicesat::catch;
 use crate::refmodel::{Graph, Ref};
 use crate::report::{Report, Tier, Violation};
-use crate::universe::{build_usize, iso_representatives_sparse, universe_upto, Built, Presentation};
+use crate::universe::{build_usize, universe_upto, Built, Presentation};
 use crustabri::utils::EquivalencyComputer;
 use rayon::prelude::*;
 use serde_json::json;
@@ -133,13 +133,9 @@ pub fn run(tier: Tier) -> i32 {
         // every labelled digraph on 5 arguments (2^25)
         space.push_str(" + all 33 554 432 labelled 5-argument digraphs");
     } else {
-        let u5 = iso_representatives_sparse(5, 7);
-        space.push_str(&format!(" + {} iso-classes of 5-argument graphs with <= 7 attacks, each also with reversed argument numbering", u5.len()));
-        let rev: Vec<usize> = (0..5).rev().collect();
-        for g in u5 {
-            graphs.push(g.permuted(&rev));
-            graphs.push(g);
-        }
+        // every labelled digraph on 5 arguments with at most 10 attacks (7.1 M graphs): the defects of
+        // this utility depend on numbering and declaration order, so isomorphism classes are not enough
+        space.push_str(" + all 7 119 516 labelled 5-argument digraphs with <= 10 attacks");
     }
     let check_one = |g: &Graph| {
             let mut acc = Acc::default();
@@ -182,6 +178,9 @@ pub fn run(tier: Tier) -> i32 {
     let mut acc = graphs.par_iter().map(|g| check_one(g)).reduce(Acc::default, Acc::merge);
     if thorough {
         let more = (0..(1u64 << 25)).into_par_iter().map(|c| check_one(&Graph::from_code(5, c))).reduce(Acc::default, Acc::merge);
+        acc = acc.merge(more);
+    } else {
+        let more = (0..(1u64 << 25)).into_par_iter().filter(|c| c.count_ones() <= 10).map(|c| check_one(&Graph::from_code(5, c))).reduce(Acc::default, Acc::merge);
         acc = acc.merge(more);
     }
     rep.states = acc.graphs * 3;
